@@ -60,7 +60,7 @@ theorem async_before_sync (c : Cfg) (r : Result) (h : runForever c = some r) :
     obtain ⟨ks, hks, _⟩ := plan_puts c
     refine ⟨(plan c).startEvs ++ (plan c).puts ++ (seg1 c.oa ++ seg2 c.blocks (plan c).inited c.oa ++
         seg3 c.blocks (plan c).failed (plan c).inited c.oa ++ seg4 c.blocks (plan c).failed (plan c).inited c.oa),
-      seg5 c.blocks (plan c).timers c.oa c.os, ?_, ?_, ?_⟩
+      seg5 c.blocks (plan c).started (plan c).timers c.oa c.os, ?_, ?_, ?_⟩
     · rw [sp.trace, stopSblocks_trace]; simp
     · intro k hk
       have := mem_stops hk
@@ -92,7 +92,7 @@ theorem stop_async_awaited (c : Cfg) (r : Result) (h : runForever c = some r) (h
   refine ⟨sp.permA, h4.trans sp.permA, ?_⟩
   refine ⟨(plan c).startEvs ++ (plan c).puts ++ (seg1 c.oa ++ seg2 c.blocks (plan c).inited c.oa),
     seg3 c.blocks (plan c).failed (plan c).inited c.oa ++ seg4 c.blocks (plan c).failed (plan c).inited c.oa
-      ++ seg5 c.blocks (plan c).timers c.oa c.os, ?_, ?_, ?_, ?_⟩
+      ++ seg5 c.blocks (plan c).started (plan c).timers c.oa c.os, ?_, ?_, ?_, ?_⟩
   · rw [sp.trace, stopSblocks_trace]; simp
   · rw [hks, plan_startEvs]
     simp [(startLoop_stops 0 c.blocks).2.1, (puts_evs ks).2.2.1, (seg1_evs c.oa).2.2.1,
@@ -112,7 +112,7 @@ theorem stop_async_bounded (c : Cfg) (r : Result) (h : runForever c = some r) (h
     r.endTime ≤ r.termTime + M := by
   have sp := run_spec c r h hb
   rw [sp.endTime, sp.termTime]
-  refine Nat.add_le_add_left (stopSblocks_dur _ _ _ _ _ _ M ?_) _
+  refine Nat.add_le_add_left (stopSblocks_dur _ _ _ _ _ _ _ M ?_) _
   intro k hk
   have := (sp.permA.mem_iff).1 hk
   simp only [setA, List.mem_filter] at this
@@ -268,50 +268,35 @@ theorem no_live_task_at_end (c : Cfg) (r : Result) (h : runForever c = some r)
         exact ht3 ht1
       · simp at ht1
 
-/-
-Full statement (not provable for the current code, known finding
-C08-timer-armed-on-never-started-fsm):  `runForever c = some r → r.timers = []`.
--/
-/-- `no_live_timer_at_end`, partial: no FSM timer handle is pending when run_forever returns,
-    for every stop order – provided the on_success destination of every started output block
-    was started too (a start() failure between an OutputFunc and the timer it addresses lets the
-    stop_data event arm a timer of a block that is never stopped) -/
-theorem no_live_timer_at_end_partial (c : Cfg) (r : Result) (h : runForever c = some r)
-    (htgt : ∀ k ∈ r.started, ∀ j, (blk c.blocks k).kind = .outf → (blk c.blocks k).onSuccess = some j →
-      j ∈ r.started) :
+/-- `no_live_timer_at_end`: no FSM timer handle is pending when run_forever returns – for every
+    fault script (in particular a start() failure between an OutputFunc and the timer its
+    stop_data event addresses), cause, instant and stop order: a timer is armed only for a block
+    between its start() and its stop(), and every started block is stopped -/
+theorem no_live_timer_at_end (c : Cfg) (r : Result) (h : runForever c = some r) :
     r.timers = [] := by
   cases hb : c.cause.before with
   | true => exact (nothing_started_when_aborted_before c r h hb).2.2.2
   | false =>
     have sp := run_spec c r h hb
-    rw [sp.started] at htgt
     rw [sp.timers]
     apply List.eq_nil_iff_forall_not_mem.2
     intro x hx
-    have hx' : x ∈ (stopSyncAll c.blocks { timers := (plan c).timers, stopped := c.oa } c.os).1.timers := hx
+    have hx' : x ∈ (stopSyncAll c.blocks
+        { timers := (plan c).timers, stopped := c.oa, started := (plan c).started } c.os).1.timers := hx
     obtain ⟨hnos, hsrc⟩ := stopSyncAll_timers _ _ _ _ hx'
     -- a started timer block belongs to the synchronous set, hence to `c.os`
     have hsync : ∀ j, j ∈ (plan c).started → (blk c.blocks j).kind = .timer → j ∈ c.os := by
       intro j hj hk
       refine (sp.permS.mem_iff).2 ?_
       simp [setS, hj, Blk.asyncStop, hk]
-    rcases hsrc with hsrc | ⟨_, k, hk, hkf, hks, hkt⟩
+    rcases hsrc with hsrc | ⟨_, h2, h3⟩
     · obtain ⟨pass2, ph, hpt⟩ := plan_timers c
       simp only [hpt] at hsrc
-      rcases armAll_mem _ _ _ _ hsrc with h1 | ⟨k, hk, hks, hkt⟩
+      rcases armAll_mem _ _ _ _ hsrc with h1 | ⟨h1, h2⟩
       · simp only [initTimers, List.mem_filter, Bool.and_eq_true, beq_iff_eq] at h1
         exact hnos (hsync x h1.1 h1.2.1.2)
-      · have hk' : k ∈ (plan c).started ∧ (blk c.blocks k).kind = .outf := by
-          unfold putBlocksOf at hk
-          split at hk
-          · simpa using hk
-          · simp at hk
-        exact hnos (hsync x (htgt k hk'.1 x hk'.2 hks) hkt)
-    · have hk' : k ∈ (plan c).started := by
-        have := (sp.permS.mem_iff).1 hk
-        simp only [setS, List.mem_filter] at this
-        exact this.1
-      exact hnos (hsync x (htgt k hk' x hkf hks) hkt)
+      · exact hnos (hsync x h1 h2)
+    · exact hnos (hsync x h2 h3)
 
 /-- non-vacuity: three blocks (async probe, timer in a timed state, OutputFunc with stop_data
     whose on_success starts the timer), handler error while running, the OutputFunc stopped
